@@ -6,7 +6,7 @@ the same tree."""
 import itertools, json, os, sys
 
 THOROUGH = os.environ.get("VERIF_NATIVE_SIZE", "quick") == "thorough"
-PIECES = ['a', 'é', '日', '\n', '\r', '\r\n', ' ', '=1', '(', ')', "'s'", '#c', '\\\n', 'x+y', ':', '    ', 'if a', 'b=2', '"""q\nr"""', 'f(k=1,*z)', '@d\ndef g(p=1): pass', 'lambda: 0']
+PIECES = ['a', 'é', '日', '\n', '\r', '\r\n', ' ', '=1', '(', ')', "'s'", '#c', '\\\n', 'x+y', ':', '    ', 'if a', 'b=2', '"""q\nr"""', 'f(k=1,*z)', '@d\ndef g(p=1): pass', 'lambda: 0', 'g(a,\n', ' k=é,\r\n j=2)', 'f"""x{a}\n', 'é{b}"""']
 BOM = '﻿'
 N = 4 if THOROUGH else 3
 
